@@ -9,7 +9,7 @@
 use crate::core::prng::Rng;
 use crate::core::{self, Log, Property, Report, Tier, Violation};
 use crate::wirekit2::table::{BindExp, Bulk, MSock, Model, Proto, Role, SynExp, UdpExp, EPH_HI, EPH_LO, EPH_SIZE};
-use crate::wirekit2::{desc, ek, kind, parse_ip, tag_bytes, tag_of, Driver, NetCfg, PktKind, WakeFlag};
+use crate::wirekit2::{desc, ek, kind, parse_ip, ports, tag_bytes, tag_of, Driver, NetCfg, PktKind, WakeFlag};
 use serde::{Deserialize, Serialize};
 use std::collections::{BTreeMap, BTreeSet};
 use std::future::Future;
@@ -48,6 +48,10 @@ pub enum Step {
     /// start a connect from `host` to a listener on another host, keep the SYN-ACK on the wire,
     /// close the listener while the handshake is in flight, then let the SYN-ACK through
     CloseDuringHandshake { host: usize, ip: String, port: PortRef, listener: u32 },
+    /// start a connect from `host` to a listener on another host, let the first SYN through and lose every
+    /// later packet of that connection in both directions until both ends have given up: the listener's
+    /// half-open child dies of retransmit exhaustion, not of a reset
+    HalfOpenTimeout { host: usize, ip: String, port: PortRef, listener: u32 },
 }
 
 impl Step {
@@ -63,6 +67,7 @@ impl Step {
             Step::ZeroMany { .. } => "zeros",
             Step::Reopen { .. } => "reopen",
             Step::CloseDuringHandshake { .. } => "closehs",
+            Step::HalfOpenTimeout { .. } => "halfopen",
         }
     }
 }
@@ -404,6 +409,15 @@ impl<'a> Ctx<'a> {
                     self.close_during_handshake(i, *host, SocketAddr::new(parse_ip(ip), port), *listener);
                 }
             }
+            Step::HalfOpenTimeout { host, ip, port, listener } => {
+                let Some(port) = self.resolve_port(port) else {
+                    self.log.ev(format!("#{i} halfopen skipped (target gone)"));
+                    return;
+                };
+                if port != 0 {
+                    self.half_open_timeout(i, *host, SocketAddr::new(parse_ip(ip), port), *listener);
+                }
+            }
             Step::ZeroMany { host, proto, ip, max } => {
                 let ip = parse_ip(ip);
                 let mut okc = 0;
@@ -552,6 +566,70 @@ impl<'a> Ctx<'a> {
         }
     }
 
+    fn half_open_timeout(&mut self, i: usize, h: usize, dst: SocketAddr, lid: u32) {
+        let v4 = dst.is_ipv4();
+        let SynExp::Listener(dh, routed) = self.m.route_syn(h, dst) else {
+            self.log.ev(format!("#{i} halfopen skipped (no listener for {dst})"));
+            return;
+        };
+        if routed != lid || dh == h || dst.ip().is_loopback() || !self.m.has_family(h, v4) || self.may_self_connect(h, dst) || self.m.free_ephemeral(h, Proto::Tcp, v4) < 64 {
+            self.log.ev(format!("#{i} halfopen skipped"));
+            return;
+        }
+        let mut fut: Option<ConnFut> = Some(Box::pin(TcpStream::connect(dst)));
+        let flag = WakeFlag::new();
+        let mut res = None;
+        let mut syn_src: Option<SocketAddr> = None;
+        let mut lost: Vec<Packet> = Vec::new();
+        let cap = 2 * self.sc.cfg.give_up_rounds() as usize + 8;
+        for _ in 0..cap {
+            if res.is_none() && flag.take() {
+                if let Poll::Ready(x) = self.d.poll_fut(h, &flag.waker, fut.as_mut().unwrap().as_mut()) {
+                    res = Some(x);
+                }
+            }
+            self.round(
+                |p| {
+                    let (sp, dp) = ports(p);
+                    let (src, to) = (SocketAddr::new(p.src, sp), SocketAddr::new(p.dst, dp));
+                    match syn_src {
+                        None if kind(p) == PktKind::Syn && to == dst => {
+                            syn_src = Some(src);
+                            false
+                        }
+                        Some(a) => (src == a && to == dst) || (to == a && sp == dst.port()),
+                        None => false,
+                    }
+                },
+                &mut lost,
+            );
+        }
+        self.rep.faults.add("packets_lost_around_a_half_open_child", lost.len() as u64);
+        lost.clear();
+        let f = fut.take();
+        self.d.on(h, || drop(f));
+        let kindr = match &res {
+            None => "Pending".to_string(),
+            Some(Ok(_)) => "Ok".to_string(),
+            Some(Err(e)) => ek(e),
+        };
+        if let Some(Ok(st)) = res {
+            self.d.on(h, || drop(st));
+        }
+        self.log.ev(format!("#{i} halfopen h{h} -> {dst}: only the first SYN got through, connector got {kindr}"));
+        self.log.tag("halfopen");
+        self.rep.faults.inc("half_open_child_left_to_time_out");
+        self.settle(12);
+        let stray = self.accept_all();
+        if let Some((l, ah, _, peer)) = stray.first() {
+            let msg = format!("#{i}: listener id{l} on h{ah} accepted a connection from {peer} whose handshake never completed");
+            self.fail("TcpMisaccept", msg);
+        }
+        for (_, ah, s, _) in stray {
+            self.d.on(ah, || drop(s));
+        }
+    }
+
     fn bulk_add(&mut self, h: usize, proto: Proto, ip: IpAddr, port: u16) {
         let m = &mut self.m.hosts[h];
         if let Some(b) = m.bulk.iter_mut().find(|b| b.proto == proto && b.ip == ip) {
@@ -578,7 +656,13 @@ impl<'a> Ctx<'a> {
             vec![sock]
         };
         let mut any = false;
-        for id in ids {
+        for (k, id) in ids.into_iter().enumerate() {
+            // half of the connection closes are sequential: the first end closes, the wire settles, and only then
+            // the other end follows as the passive closer (its host says nothing of its own accord afterwards)
+            if k == 1 && any && (i / 2) % 2 == 0 {
+                self.settle(8);
+                self.rep.probes.inc("connection_closed_one_end_after_the_other");
+            }
             if let Some((h, mut s)) = self.real.remove(&id) {
                 // every third close of a stream shuts its write side down first (half-close, then drop)
                 if i % 3 == 0 {
@@ -1493,8 +1577,12 @@ impl Property for C17 {
                     let ip = reach_ip(rng, &hosts, t.host, &t.ip, host);
                     let id = next_id;
                     next_id += 1;
-                    steps.push(Step::TcpConnect { id, host, ip, port: t.port.clone(), synack_hold: 0 });
-                    steps.push(Step::Close { sock: id });
+                    if rng.chance(1, 3) {
+                        steps.push(Step::HalfOpenTimeout { host, ip, port: t.port.clone(), listener: t.id });
+                    } else {
+                        steps.push(Step::TcpConnect { id, host, ip, port: t.port.clone(), synack_hold: 0 });
+                        steps.push(Step::Close { sock: id });
+                    }
                     shadow.remove(li);
                     steps.push(Step::Close { sock: t.id });
                     if let PortRef::Fixed(p) = t.port {
@@ -1514,7 +1602,8 @@ impl Property for C17 {
                 }
             }
         }
-        let mut sweep_every = true;
+        // a quarter of the scenarios probe only at the end: between the steps the hosts say nothing of their own accord
+        let mut sweep_every = !rng.chance(1, 4);
         if exhaustion {
             // fill the ephemeral range of one (protocol, family) on host 0 except for a few ports,
             // then bind :0 until the model says the range is full and once more
